@@ -526,3 +526,24 @@ def load_known_findings():
     if not p.exists():
         return []
     return json.loads(p.read_text())["findings"]
+
+
+# --------------------------------------------------------------------------- known findings
+
+
+def known_ids(prop_id):
+    return {f["id"]: f for f in load_known_findings() if f.get("property") == prop_id and f.get("status") == "known"}
+
+
+def report_failure(report, name, payload, finding_id=None):
+    """A property failure on a concrete input.  If `finding_id` names a finding listed as
+    `known` for this property it is printed as KNOWN-FINDING (once) and not counted;
+    anything else is a VIOLATION."""
+    known = known_ids(report.prop_id)
+    if finding_id is not None and finding_id in known:
+        f = known[finding_id]
+        report.known_finding(f"[{finding_id}] {f['text']}")
+        report.hist("known_finding_hits", finding_id)
+        return False
+    report.violation(name, payload)
+    return True
